@@ -1,16 +1,18 @@
 #!/bin/bash
-# Development helper: run the seeded-change matrix in a scratch copy (worktree of /repo + copy of /verif whose
-# simulator depends on that worktree), so that /repo and /verif stay usable meanwhile. The committed
-# seeded/RESULTS.md is produced by tools/seed_matrix.sh on /repo itself.
+# Run seeded changes against the checks in a scratch copy: a git worktree of /repo's HEAD plus a copy of /verif whose
+# simulator depends on that worktree (only sim/Cargo.toml's path differs). Same patch, same check, same binary
+# source as `git -C /repo apply` + `./check` would use, but /repo and /verif stay usable meanwhile and several
+# copies can run side by side. Results: /verif/seeded/<name>/result.json (collected by tools/collect_matrix.py).
 # usage: tools/scratch_matrix.sh '<glob>' [tag]
 set -u
 PAT="${1:-*}"; TAG="${2:-a}"
 S=/tmp/seedrun-$TAG
 mkdir -p $S
 [ -d $S/repo ] || git -C /repo worktree add -q --detach $S/repo HEAD
-git -C $S/repo checkout -q --detach $(git -C /repo rev-parse HEAD); git -C $S/repo checkout -q -- .
+git -C $S/repo checkout -q -- . ; git -C $S/repo checkout -q --detach $(git -C /repo rev-parse HEAD)
 rsync -a --delete --exclude target --exclude .git --exclude replays /verif/ $S/verif/
 sed -i "s#path = \"/repo\"#path = \"$S/repo\"#" $S/verif/sim/Cargo.toml
+VERIF_COMMIT=$(git -C /verif rev-parse --short HEAD)$(git -C /verif diff --quiet || echo +dirty)
 cd $S/verif
 for d in seeded/$PAT/; do
   n=$(basename $d); id=${n%%-*}
@@ -19,5 +21,10 @@ for d in seeded/$PAT/; do
   out=$(./check $id quick --no-evidence 2>&1); rc=$?
   git -C $S/repo checkout -q -- .
   first=$(echo "$out" | grep -E 'violated' | head -1 | sed 's/^ *violated //' | cut -c1-200)
+  python3 - "$n" "$id" "$rc" "$first" "$VERIF_COMMIT" <<'PY'
+import json,sys
+n,id,rc,first,commit=sys.argv[1:6]
+json.dump({"name":n,"property":id,"exit_code":int(rc),"detected":int(rc)==1,"first_violation":first,"verif_commit":commit},open(f"/verif/seeded/{n}/result.json","w"),indent=1)
+PY
   echo "$n rc=$rc $first"
 done
